@@ -253,14 +253,23 @@ def install(I):
             outs = []
             s2 = st.clone()
             s2.notes.append(('checked_%s overflows' % base.lower(), 1, ctx.loc))
+            feasible = True
             if base == 'Sub':
                 # a < b
-                I.assume(s2, _cmp_pred(I, s2, 'ult', a, b), 1)
-            if not s2.dead:
+                feasible = I.assume(s2, _cmp_pred(I, s2, 'ult', a, b), 1)
+            else:
+                # overflow with one constant operand bounds the other one from below
+                for x, y in ((a, b), (b, a)):
+                    if y.is_const() and not x.is_const() and y.value() > 0:
+                        c = y.value()
+                        m_ = 1 << x.w
+                        I.narrow(s2, I.resub(s2, x), (m_ - c) if base == 'Add' else -(-m_ // c), None)
+            if feasible and not s2.dead:
                 outs.append(ctx.ret(none(), s2))
             st.notes.append(('checked_%s overflows' % base.lower(), 0, ctx.loc))
             if base == 'Sub':
-                I.assume(st, _cmp_pred(I, st, 'ule', b, a), 1)
+                if not I.assume(st, _cmp_pred(I, st, 'ule', b, a), 1):
+                    st.dead = True
                 res = I.norm(st, I.binop(st, 'Sub', I.norm(st, _resubst(ctx, a)), I.norm(st, _resubst(ctx, b)), ctx.loc, ctx.fr)) if not st.dead else res
                 if st.events and st.events[-1][0] == 'ovf':
                     st.events.pop()
@@ -277,7 +286,19 @@ def install(I):
         return r.bits[0]
 
     def _clamp_result(I, st, res, a, b, base):
-        if not res.has_top() and (I.sym_of(res) is None or I.sym_of(res) not in st.defs):
+        # no overflow on this path: with one constant operand that bounds the other one
+        for x, y in ((a, b), (b, a)):
+            if y.is_const() and not x.is_const():
+                c = y.value()
+                top = (1 << x.w) - 1
+                if base == 'Mul' and c > 0:
+                    I.narrow(st, x, None, top // c)
+                elif base == 'Add':
+                    I.narrow(st, x, None, top - c)
+        if st.dead:
+            return res
+        res = I.resub(st, res)
+        if not res.has_top() and (I.sym_of(res, st) is None or I.sym_of(res, st) not in st.defs):
             return res
         ra, rb = I.rng_of(st, a), I.rng_of(st, b)
         if not ra or not rb:
@@ -290,7 +311,7 @@ def install(I):
         if lo > hi:
             st.dead = True
             return res
-        n = I.sym_of(res)
+        n = I.sym_of(res, st)
         if n is not None and n in st.rng:
             # the unchecked result was materialised as a symbol: on the Some path it did not wrap
             I.narrow(st, res, lo, hi)
